@@ -245,7 +245,7 @@ pub fn run(ctx: &Ctx) -> Result<(), String> {
     ctx.cov("log_records", json!(inproc::LOG_RECORDS.load(Relaxed)));
     ctx.cov("exhaustive", json!(true));
     ctx.cov("bound", json!({"seeds": seeds.len(), "log_levels": 6, "event_history_depth": ctx.tier.pick(3, 4), "datagram_class_pairs": 225}));
-    ctx.cov("rule", json!("every execution constructs a real in-process Server from the seed with a capturing logger at the given level and scans every log record and every datagram any harness socket receives for the seed, the Ed25519 private scalar and both halves of the expanded key, each in raw, hex, HEX, base64 (std/url) and Rust Debug-list form. Executions: all C09 event histories of the tier's depth x log level Off..Trace x {fault 0, fault 50, batch 64}; seed alphabet x log levels x fault {0,50} x two mixes; all ordered pairs of the C08 datagram classes x log levels; Display/Debug renderings of the key objects; real server binary runs (file and ENV sources, accepted and refused configurations) with stdout/stderr scanned. A planted-seed self-test guards against a blind scanner."));
+    ctx.cov("rule", json!("every execution constructs a real in-process Server from the seed with a capturing logger at the given level and scans every log record and every datagram any harness socket receives for the seed, the Ed25519 private scalar and both halves of the expanded key, each in raw, hex, HEX, base64 (std/url) and Rust Debug-list form. Executions: all C09 event histories of the tier's depth x log level Off..Trace x {fault 0, fault 50, batch 64}; seed alphabet x log levels x fault {0,50} x two mixes; all ordered pairs of the C08 datagram classes x log levels; Display/Debug renderings of the key objects; real server binary runs (file and ENV sources; accepted and refused configurations incl. every point of the C16 configuration grid on three bases) with stdout/stderr scanned. A planted-seed self-test guards against a blind scanner."));
     ctx.sample(json!({"what":"event-histories","level":"TRACE","fault":50,"events":["C0","X0","I1"]}));
     ctx.sample(json!({"what":"seed-alphabet","seed":"0100..00","level":"DEBUG"}));
     ctx.assume("secrets embedded at a shifted alignment inside a larger base64 blob are not searched for");
